@@ -198,6 +198,8 @@ def check_bw(ctx, harness, n_scripts, stats):
             bad.append("bytes before the data area changed")
         stats["bw_scripts"] += 1
         stats["bw_calls"] += len(calls)
+        if stats["bw_scripts"] in (7, 1000):
+            ctx.c08_samples.append({"kind": "bw", "script": all_lines[a:a + n][:12], "impl": il[:12], "model": ml[:12]})
         # a LAST call after which the file is shorter than "size before + bytes stored" was a deduplication hit
         sizes = [int(r.split()[2]) for r in il[1:-1] if r.startswith("ok ")]
         stats["bw_truncating_scripts"] += 1 if any(
@@ -210,6 +212,16 @@ def check_bw(ctx, harness, n_scripts, stats):
         elif il != ml:
             d = vlib.diff_streams(il, ml)[0]
             stats["disagreements"] += 1
+            # the Lean specification predicate (Spec.BlockWriter.readbackOk, one conjunct per file) evaluated by the
+            # model driver on the *implementation's* bytes and locations
+            mon = ["mon-slice %s %s %s" % (tok(final), r.split()[1], tok(p)) for p, r in zip(bw_payloads(calls), il[1:-1])
+                   if p is not None and r.startswith("ok ")]
+            mres = ctx.driver(["c08"], "\n".join(mon) + "\n") if mon else []
+            if any(x != "1" for x in mres):
+                ctx.violation("bw-readback:" + vlib.sha(json.dumps(all_lines[a:a + n]))[:12],
+                              "Lean read-back predicate fails on the implementation's output (script %s)" % name,
+                              {"mode": "bw", "lines": all_lines[a:a + n], "impl": il, "monitor": mres})
+                continue
             ctx.violation("bw-corr:" + vlib.sha(json.dumps(all_lines[a:a + n]))[:12],
                           "block writer and model disagree at line %d of script %s (impl=%s model=%s); read-back oracle holds" % (
                               d, name, il[d][:80] if d < len(il) else None, ml[d][:80] if d < len(ml) else None),
@@ -473,6 +485,17 @@ def check_bp_one(ctx, sc, out, stats, name):
                 stored, sum(len(t) for t in tails))))
     # (3) block-writer model on the implementation's own call trace
     calls = [t for t in res["events"] if t[0] in ("W",)]
+    # the hypothesis `wf` of the block-writer theorems is a fact about the block processor's call stream: check it
+    opened = False
+    for t in calls:
+        fl = int(t[2], 16)
+        if fl & F_LAST:
+            if not (opened or fl & F_FIRST):
+                problems.append(("corr", "write_data_block call stream violates the FIRST/LAST protocol assumed by bw_readback (LAST without FIRST)"))
+                break
+            opened = False
+        elif fl & F_FIRST:
+            opened = True
     bw_lines = ["bw-init %s 0" % tok(sc["pre"])] + ["bw-write %s %s %s" % (t[1], t[2], t[3]) for t in calls] + ["bw-file"]
     # (4) fragment model on the implementation's event order
     fd, err = fd_script(sc, res)
@@ -505,12 +528,18 @@ def check_bp_one(ctx, sc, out, stats, name):
             problems.append(("corr", "model refuses event '%s': %s" % (l, m)))
             break
     # statistics
+    if any(t[0] == "E" and t[5] == "0" for t in res["events"]):
+        stats["bp_collision_scripts"] += 1       # a (size, checksum) match between different contents was resolved by bytes
     for t in res["events"]:
         if t[0] == "E":
             stats["cmp_%s_%s" % (t[4], "equal" if t[5] == "1" else "differ")] += 1
         elif t[0] == "T":
             stats["bp_truncates"] += 1
     stats["bp_scripts"] += 1
+    if stats["bp_scripts"] in (5, 300):
+        ctx.c08_samples.append({"kind": "bp", "config": {k: sc[k] for k in ("B", "codec", "workers", "backlog", "hashbits")},
+                                "files": len(sc["files"]), "events": [" ".join(t)[:60] for t in res["events"][:10]],
+                                "inodes": {k: v for k, v in list(res["inodes"].items())[:4]}})
     stats["bp_files"] += len(sc["files"])
     stats["bp_writes"] += len(calls)
     stats["bp_fragments"] += sum(1 for m in fd[1] if m[0] == "frag")
@@ -757,6 +786,31 @@ def check_tools(ctx, stats, nruns):
         img.unlink(missing_ok=True)
 
 
+def check_sensitivity(ctx, harness, stats, n=60):
+    """How sharp is the instrument?  The same kind of scripts with the byte comparison switched off by *configuration*
+    (file/uncmp = NULL: the documented "size and hash alone" mode) must make the read-back oracle fail often under a
+    <=2-bit checksum.  Measured on every run and recorded; not a violation (documented opt-out the tools do not use)."""
+    scripts = []
+    for _ in range(n):
+        sc = gen_bp_script(ctx.rng)
+        sc["hashbits"] = ctx.rng.choice([0, 1, 2])
+        scripts.append(sc)
+    text = "\n".join(l for sc in scripts for l in bp_script_lines(sc, nofile=1)) + "\n"
+    lines, rc, err = run_harness(ctx, harness, text, timeout=600)
+    outs, _ = split_outputs(lines or [])
+    wrong = 0
+    for sc, out in zip(scripts, outs):
+        res = parse_bp_output(out)
+        if res["end"] != 0 or res["file"] is None:
+            continue
+        if any(raw_readback(sc, res, k) != sc["files"][k][0] for k in range(len(sc["files"]))):
+            wrong += 1
+    stats["sensitivity_scripts"] = len(outs)
+    stats["sensitivity_scripts_with_wrong_data_when_hash_only"] = wrong
+    if len(outs) and wrong == 0:
+        ctx.assumptions.append("sensitivity probe found no wrong read-back in hash-only mode: the generated inputs may have lost their collisions")
+
+
 def n_bw(ctx):
     return 3000 if ctx.quick() else 30000
 
@@ -771,6 +825,8 @@ def gen_only(ctx):
         gen_bw_script(ctx.rng, small=ctx.quick() or i % 4 != 0)
     for i in range(n_bp(ctx)):
         gen_bp_script(ctx.rng, big=(i % 25 == 24))
+    for _ in range(60):
+        gen_bp_script(ctx.rng); ctx.rng.choice([0, 1, 2])
 
 
 def run(ctx):
@@ -781,21 +837,42 @@ def run(ctx):
     harness = build_harness(ctx)
     from collections import defaultdict
     stats = defaultdict(int)
+    ctx.c08_samples = stats_samples = []
     check_bw(ctx, harness, n_bw(ctx), stats)
     check_bp(ctx, harness, n_bp(ctx), stats, serial_harness=None if ctx.quick() else build_harness(ctx, serial=True))
+    check_sensitivity(ctx, harness, stats)
     check_tools(ctx, stats, 4 if ctx.quick() else 40)
     ctx.cov.update({
         "evaluations": stats["bw_calls"] + stats["bp_writes"] + stats["bp_fragments"],
-        "distinct_nontrivial": stats["bw_truncating_scripts"],
-        "rule": "bw: generated write_data_block sequences (1..14 files of 1..6 blocks, sizes from a 1..3-element set, 1..3-letter "
-                "alphabet, 0..3-bit checksums, 55% repeated blocks, 45% files derived from an earlier file); non-trivial = script in "
-                "which at least one LAST call truncated the output (a deduplication hit)",
+        "distinct_nontrivial": stats["bw_truncating_scripts"] + stats["bp_collision_scripts"],
+        "rule": "bw: generated write_data_block sequences against the real block_writer.c (1..14 files of 1..6 blocks, sizes from a "
+                "1..3-element set, 1..3-letter alphabet, 0..3-bit checksums honest or arbitrary, 55% repeated blocks, 45% files derived "
+                "from an earlier file by prefix/extension/one flipped bit, sparse blocks, sentinels, fragment blocks between files, "
+                "sometimes 4095..9000-byte blocks). bp: files through the real block processor + hash table + thread pool linked with "
+                "xxh32 truncated to 0..8 bits (block size 8..64 and 4096; toy RLE / gzip / none; 1..4 workers; backlog 3..30; 1..40 "
+                "files from <=5 distinct blocks and <=8 tails of <=3 sizes; DONT_FRAGMENT/DONT_DEDUPLICATE/DONT_COMPRESS/DONT_HASH/"
+                "IGNORE_SPARSE). tools: gensquashfs/rdsquashfs/tar2sqfs/sqfs2tar with 0..8-bit checksum, gzip/xz/lz4/zstd, -b 4096.."
+                "131072, -j 1..16. non-trivial = bw script in which a LAST call truncated the output (deduplication hit) + bp script in "
+                "which a (size, checksum) match between different contents was decided by the byte comparison",
+        "input_distribution": {"fragment_comparisons_by_place_and_answer": {k[4:]: v for k, v in stats.items() if k.startswith("cmp_")}},
         "stats": dict(stats),
         "disagreements_checked": stats["disagreements"],
-        "samples": [],
+        "samples": stats_samples,
     })
     return ctx.finish(LEVEL, trusted_extra=[
-        "modelled: lib/sqfs/src/block_writer.c, lib/util/src/file_cmp.c, the sqfs_file_t contract of lib/sqfs/src/io/file.c (POSIX branch)"])
+        "modelled: lib/sqfs/src/block_writer.c, lib/util/src/file_cmp.c, the sqfs_file_t contract of lib/sqfs/src/io/file.c (POSIX branch); "
+        "process_completed_fragment / chunk_info_equals / load_frag_block / fblk_in_flight handling of lib/sqfs/src/block_processor; "
+        "the 64-bit history word as its two 32-bit halves; hash_table.c as a list (order shown immaterial by frag_lookup_unique)",
+        "harness/weak_xxh.c (the checksum hook the property prescribes), harness/h_c08.c (in-memory sqfs_file_t, logging wrappers, "
+        "link-time --wrap of the two hash-table entry points), the Python read-back oracle"],
+        assumptions=[
+            "codec contract unc(cmp x) = x for gzip/xz/lz4/zstd (hypothesis `Codec.RoundTrip` of the fragment theorems; proved for the toy codec, "
+            "exercised for the real ones by the read-back runs)",
+            "block-writer theorems assume the FIRST/LAST protocol `wf` of the call stream and blocks < 2^24 bytes; the protocol is checked on every "
+            "logged call stream of the real block processor, not proved here (C02 models the front end)",
+            "fragment theorems exclude an all-zero tail end marked nosparse (defect D24, property C17)",
+            "when a fragment block moves from in flight to disk is an input of the fragment model (all timings are covered by the theorems; the "
+            "real timings come from the real pool)"])
 
 
 def replay(ctx, path):
